@@ -98,9 +98,14 @@ def _cured_by(repair: str, ctx: Any, case: dict, v: dict) -> bool:
     res = _REPAIR_CACHE[key]
     if res.get("verdict") == "inconclusive":
         return False
+    def where(x: dict) -> tuple:
+        b = x.get("blame") or {}
+        return (b.get("step") or x.get("step"), b.get("iter") if b else x.get("iter"))
+
     for w in res.get("violations") or []:
         if w.get("property") == v.get("property") and w.get("kind") == v.get("kind") and w.get("instance") == v.get("instance"):
-            return False
+            if where(w) == where(v):
+                return False  # the same step still breaks it: not (only) this mechanism
     if res.get("n_violations", 0) > len(res.get("violations") or []):
         return False  # truncated list: cannot tell
     return True
